@@ -138,6 +138,47 @@ def ensure_build(timeout=1500) -> None:
                + r.stdout[-3000:])
 
 
+def generated_model(run, translator: str, gen_file: str, proof_file: str) -> str | None:
+    """The 'regenerated model' tie: run tools/<translator> on /repo's current source, compile the
+    generated Gen/<gen_file> and Gen/<proof_file> (theorems: generated = hand-written model) and
+    read back Print Assumptions.  Returns None when everything checks, else a description of what
+    no longer does (the caller then searches for a failing input with the correspondence check).
+    Neither file is part of the main build: a source the translator refuses, or for which the
+    equivalence proof fails, cannot break the other checks."""
+    gen = COQ / 'Gen'
+    r = sh([sys.executable, str(VERIF / 'tools' / translator), os.environ.get('VERIF_REPO', '/repo'),
+            str(gen / gen_file)], 120)
+    if r.returncode != 0:
+        return f"translator tools/{translator} refused the source: {r.stdout.strip()[-1500:]}"
+    for f in (gen_file, proof_file):
+        code = re.sub(r'\(\*.*?\*\)', '', (gen / f).read_text(), flags=re.S)
+        if FORBIDDEN.search(code):
+            broken(f"forbidden construct in coq/Gen/{f}")
+    qs = COQ_Q + ['-Q', 'Gen', 'Verif']
+    r1 = sh(['timeout', '300', 'coqc'] + qs + [f'Gen/{gen_file}'], 330, cwd=COQ)
+    if r1.returncode != 0:
+        return f"generated Gen/{gen_file} does not compile: {r1.stdout[-1500:]}"
+    r2 = sh(['timeout', '300', 'coqc'] + qs + [f'Gen/{proof_file}'], 330, cwd=COQ)
+    if r2.returncode != 0:
+        return (f"Gen/{proof_file} (generated model = hand-written model) no longer checks against the model "
+                f"generated from the current source: {r2.stdout[-1500:]}")
+    src = (gen / proof_file).read_text()
+    names = re.findall(r'^\s*Theorem\s+(\w+)', src, flags=re.M)
+    order = re.findall(r'^\s*Print Assumptions\s+(\w+)', src, flags=re.M)
+    blocks = [b.strip() for b in re.split(r'(?m)^(?=Closed under the global context|Axioms:)', r2.stdout) if b.strip()]
+    if run.proof is not None:
+        run.proof['theorems'] = run.proof['theorems'] + names
+        for n, b in zip(order, blocks):
+            run.proof['assumptions'][n] = b[:600]
+        run.proof['all_closed'] = run.proof['all_closed'] and len(blocks) == len(order) and all(
+            b.startswith('Closed under') for b in blocks)
+        run.proof['cmd'] += f" ; python3 tools/{translator} ; coqc Gen/{gen_file} Gen/{proof_file}"
+    run.add_obligation(True, len(names))
+    run.notes.append(f"model regenerated from the source by tools/{translator}; Gen/{proof_file}: "
+                     f"{', '.join(names)} re-checked on this run")
+    return None
+
+
 def scan_forbidden() -> list[str]:
     hits = []
     for p in sorted(COQ.rglob('*.v')):
